@@ -106,8 +106,19 @@ def cmd_gen(cases):
                     g.generate_equations(n, basis, d)
                 trees = parse_tree_file(os.path.join(d, "orig_trees_%d.txt" % n))
                 m = re.search(r"Original number of trees: (\d+)", buf.getvalue())
-                out.append({"n": n, "basis": basis, "trees": trees,
-                            "announced": int(m.group(1)) if m else None})
+                rec = {"n": n, "basis": basis, "trees": trees, "announced": int(m.group(1)) if m else None}
+
+                def nlines(name):
+                    p = os.path.join(d, name % n)
+                    return sum(1 for _ in open(p)) if os.path.exists(p) else None
+                rec["files1"] = {k: nlines(k + "_%d.txt") for k in ("orig_trees", "extra_trees", "trees", "aifeyn", "orig_aifeyn", "extra_aifeyn")}
+                if n <= 4:
+                    # a second generation into the same, now populated, directory (re-running a job, refreshing a library)
+                    with contextlib.redirect_stdout(io.StringIO()):
+                        g.generate_equations(n, basis, d)
+                    rec["files2"] = {k: nlines(k + "_%d.txt") for k in ("orig_trees", "extra_trees", "trees", "aifeyn", "orig_aifeyn", "extra_aifeyn")}
+                    rec["trees2_same"] = parse_tree_file(os.path.join(d, "orig_trees_%d.txt" % n)) == trees
+                out.append(rec)
             except Exception as e:
                 out.append({"n": n, "basis": basis, "exc": "%s: %s" % (type(e).__name__, e)})
             shutil.rmtree(d, ignore_errors=True)
